@@ -94,6 +94,9 @@ func (l List) Get(i int) Value {
 	if end > int(size) {
 		return Value{}
 	}
+	if start > end {
+		return Value{}
+	}
 	return l.bytes[start:end]
 }
 
@@ -106,6 +109,9 @@ func (l List) GetBytes(i int) []byte {
 
 	size := l.table.DataSize()
 	if end > int(size) {
+		return nil
+	}
+	if start > end {
 		return nil
 	}
 
